@@ -297,9 +297,9 @@ func main() {
 		return
 	}
 
-	st := &hx.Stats{Rule: "a case is a history on one router: 3-7 steps, each optionally replacing the tree (Handle/Update/Delete) and then sending a tagged request (direct, trailing-slash, other method, OPTIONS, no route) through ServeHTTP or doing a manual Lookup; before every acquisition chosen leftovers are planted in every resettable field of the pooled context; handlers set headers, write, mutate the request, Clone, CloneWith (own or new writer/request), nested Lookup; every observation is compared with the model (view + raw field dump) and with the view the specification derives from the current request alone; clones are re-inspected after every later step. non-trivial = the history contains a Clone, CloneWith or Lookup; distinct = distinct histories (every token is unique)"}
-	ncases := 200
-	workers, perWorker, concEmit := 6, 150, 400
+	st := &hx.Stats{Rule: "a case is a history on one router: 3-6 steps, each optionally replacing the tree (Handle/Update/Delete) and then sending a tagged request (direct, trailing-slash, other method, OPTIONS, no route) through ServeHTTP or doing a manual Lookup; before every acquisition chosen leftovers are planted in every resettable field of the pooled context; handlers set headers, write, mutate the request, Clone, CloneWith (own or new writer/request), nested Lookup; every observation is compared with the model (view + raw field dump) and with the view the specification derives from the current request alone; clones are re-inspected after every later step. non-trivial = the history contains a Clone, CloneWith or Lookup; distinct = distinct histories (every token is unique)"}
+	ncases := 130
+	workers, perWorker, concEmit := 6, 150, 300
 	if tier == "thorough" {
 		ncases = 2600
 		workers, perWorker, concEmit = 8, 1500, 3000
@@ -323,7 +323,7 @@ func main() {
 		b := newB(rnd.Fork(), i)
 		s := &scen{b: b}
 		s.newRouter()
-		steps := b.rnd.Range(3, 7)
+		steps := b.rnd.Range(3, 6)
 		for k := 0; k < steps && !b.panicked && b.desync == ""; k++ {
 			if k > 0 && b.rnd.Pct(45) {
 				s.mutateTree()
